@@ -34,7 +34,7 @@ func init() {
 		Assumptions: []string{"sync.Mutex semantics"},
 	}, runC35)
 	register("C41", PropertyMeta{
-		Technique: "atomic-only access audit + decision tables of Generate and of the lazy initialisation (check, lock, re-check)",
+		Technique:   "atomic-only access audit + decision tables of Generate and of the lazy initialisation (check, lock, re-check)",
 		Explanation: "Decides on timing/idgenerator.go: the counter of both generators is touched only as an argument of sync/atomic functions; Generate returns the result of adding one atomically (so it is non-zero and never repeats short of wrap-around); the global generator is installed only under the mutex after re-checking, under the mutex, that none is installed yet; the sequential generator's checkpoint pair carries the counter both ways.",
 		NotDecided:  "wrap-around after 2^64 IDs; the unlocked fast-path read of the 'instantiated' flag (a data race by the memory model, benign on the supported platforms).",
 		Assumptions: []string{},
@@ -626,7 +626,9 @@ func runC34(c *Ctx) {
 		t := ExtractTable(p, f, TableConfig{})
 		roles := []Role{
 			{Name: "tracked", IsBool: true, Match: func(a *Atom) bool { return strings.HasPrefix(a.Key, "ok(") && strings.Contains(a.Key, "inflightTasks") }},
-			{Name: "seen", IsBool: true, Match: func(a *Atom) bool { return strings.Contains(a.Key, "[tag.What]") && !strings.HasPrefix(a.Key, "ok(") && strings.Contains(a.Key, "inflightTasks") }},
+			{Name: "seen", IsBool: true, Match: func(a *Atom) bool {
+				return strings.Contains(a.Key, "[tag.What]") && !strings.HasPrefix(a.Key, "ok(") && strings.Contains(a.Key, "inflightTasks")
+			}},
 		}
 		CheckTable(c, "tag-counting", "tracing.TagCountTracer.AddTaskTag", p.Decl(f).Pos(), t, roles, []int{0, 1}, nil, func(v RoleVals, r *Row) (bool, string) {
 			tc := r.Stores(func(e *Effect) bool { return e.RecvHas(tcF) })
@@ -642,7 +644,9 @@ func runC34(c *Ctx) {
 				return false, "a tracked task must be counted once per tag name, the first time it carries it"
 			}
 			if want == 1 {
-				mark := r.Stores(func(e *Effect) bool { return strings.Contains(e.RecvS, "inflightTasks[tag.TaskID]") && e.Args[0] == "true" })
+				mark := r.Stores(func(e *Effect) bool {
+					return strings.Contains(e.RecvS, "inflightTasks[tag.TaskID]") && e.Args[0] == "true"
+				})
 				if len(mark) != 1 {
 					return false, "the tag name must be remembered for the task so that it is not counted again"
 				}
@@ -815,7 +819,9 @@ func runC35(c *Ctx) {
 			if r.Out.Kind == "panic" {
 				continue
 			}
-			app := r.Stores(func(e *Effect) bool { return strings.HasSuffix(e.RecvS, ".entries") && len(e.Args) > 0 && strings.HasPrefix(e.Args[0], "append(") })
+			app := r.Stores(func(e *Effect) bool {
+				return strings.HasSuffix(e.RecvS, ".entries") && len(e.Args) > 0 && strings.HasPrefix(e.Args[0], "append(")
+			})
 			cnt := r.Stores(func(e *Effect) bool { return strings.HasSuffix(e.RecvS, ".entryCount") })
 			fl := r.Calls(func(e *Effect) bool { return e.Callee != nil && e.Callee.Name() == "flushLocked" })
 			if len(app) != 1 || len(cnt) != 1 {
@@ -910,7 +916,9 @@ func runC41(c *Ctx) {
 				ok, why = false, "the generator must be installed under the mutex"
 				continue
 			}
-			recheck := r.Atom(func(a *Atom) bool { return a.IsBool && a.Key == "idGeneratorInstantiated" && a.Gen >= lk[0].Gen && !a.B })
+			recheck := r.Atom(func(a *Atom) bool {
+				return a.IsBool && a.Key == "idGeneratorInstantiated" && a.Gen >= lk[0].Gen && !a.B
+			})
 			if recheck == nil {
 				ok, why = false, "after taking the mutex the 'already installed' flag must be tested again before installing: two first-time callers that both passed the unlocked test would otherwise each install a generator, and the second restarts the ID sequence"
 			}
